@@ -50,6 +50,10 @@ def run_case(case):
 		sigs = [np.array(sorted(set(rnd.randrange(top) for _ in range(rnd.choice([0, 0, 1, 3, 20])))), dtype=dt) for _ in range(n)]
 		if n and rnd.random() < .5:
 			sigs[rnd.randrange(n)] = np.array([top - 1], dtype=dt)
+		if case.get('sizes'):
+			# signatures of prescribed sizes (size skew: tiny next to very large ones, powers of two and their neighbours)
+			sigs = [np.arange(sz, dtype=dt) * max(1, (top // max(sz, 1)) // 2) + (i % 2) for i, sz in enumerate(case['sizes'])]
+			n = len(sigs)
 		idkind = case.get('ids', 'str')
 		if idkind == 'str':
 			ids = [rnd.choice(['g', 'é-ü', '名前', 'a b', '']) + str(i) for i in range(n)]
@@ -94,7 +98,7 @@ def run_case(case):
 			if n:
 				import itertools
 				ends = [None, 0, 1, 2, -1, -2, n - 1, n, n + 2, -n, -n - 1]
-				grid = [slice(a, b, c) for a, b, c in itertools.product(ends, ends, [None, 1, 2, 3, -1, -2, -3, n, -n])] if n <= 12 else \
+				grid = [] if case.get('sizes') else [slice(a, b, c) for a, b, c in itertools.product(ends, ends, [None, 1, 2, 3, -1, -2, -3, n, -n])] if n <= 12 else \
 					[slice(rnd.choice(ends), rnd.choice(ends), rnd.choice([None, 1, 2, 3, -1, -2, -3, 7, -7])) for _ in range(60)]
 				masks = [np.array([rnd.random() < .5 for _ in range(n)])]
 				for idx in [slice(None), slice(1, None, 2), slice(None, None, -1), [n - 1, 0], [rnd.randrange(n) for _ in range(3)], [-1, 0, -n], np.array([0, n - 1, 0], dtype='i8')] + grid + masks:
@@ -122,6 +126,14 @@ def bounded(tier, seed):
 		cases.append({'kind': 'roundtrip', 'seed': rnd.randrange(10 ** 6), 'k': rnd.choice([1, 3, 4, 5, 8, 9, 16, 17, 32]), 'prefix': rnd.choice(['A', 'ATG', 'acgt']),
 		              'n': rnd.choice([1, 1, 2, 5, 30]), 'ids': rnd.choice(['str', 'int', 'bytes', 'none']), 'meta': rnd.random() < .7,
 		              'container': rnd.choice(['array', 'list']), 'compression': rnd.choice([None, None, 'gzip', 'lzf'])})
+	# size skew: very large signatures between small ones, sizes around powers of two (write buffering / chunking boundaries)
+	for sizes in ([4, 2 ** 20 + 1, 9], [3, 2 ** 16, 0, 2 ** 16 + 1, 5], [1, 2 ** 21 + 3, 2, 2 ** 20, 7], [0, 70000, 3, 2 ** 18 - 1, 1]):
+		for cont in ('list', 'array'):
+			for idk in ('str', 'none'):
+				if tier == 'quick' and (cont == 'array' and idk == 'none'):
+					continue
+				cases.append({'kind': 'roundtrip', 'seed': 5, 'k': 12, 'prefix': 'ATG', 'n': len(sizes), 'sizes': sizes, 'ids': idk, 'meta': False, 'container': cont,
+				              'compression': rnd.choice([None, 'gzip'])})
 	n, failures, sample = 0, [], []
 	for c in cases:
 		r = run_case(c)
@@ -132,5 +144,5 @@ def bounded(tier, seed):
 			failures.append({'case': c, 'expected': r.get('expected'), 'actual': r.get('actual'), 'class': c['kind']})
 			if len(failures) >= 4:
 				break
-	return {'tool': 'real dump_signatures / load_signatures on generated collections; foreign byte contents', 'bound': f'{len(cases)} cases: k in 1..32, <= 30 signatures, 4 ID kinds, metadata, 2 containers, gzip/lzf filters; 6 foreign files',
+	return {'tool': 'real dump_signatures / load_signatures on generated collections; foreign byte contents', 'bound': f'{len(cases)} cases: k in 1..32, <= 30 signatures, 4 ID kinds, metadata, 2 containers, gzip/lzf filters; size-skewed collections with signatures of up to 2^21 values; 6 foreign files',
 	        'cases': n, 'failures': failures, 'samples': sample}
